@@ -368,6 +368,8 @@ def run_gwf(
     pty_stdout=False,
     workdir=None,
     interact=None,
+    cwd_on_path=False,
+    nofile=None,
 ):
     """Run `gwf <args>` as a forked child.  env: full environment for the child.
     interact = {"wait_for": text, "then": callable, "answer": "y\\n"}: stdin is a FIFO; once `text` has appeared on
@@ -421,6 +423,14 @@ def run_gwf(
                 root.removeHandler(h)
             if GWF_SRC not in sys.path:
                 sys.path.insert(0, GWF_SRC)
+            if nofile:
+                import resource
+
+                resource.setrlimit(resource.RLIMIT_NOFILE, (nofile, resource.getrlimit(resource.RLIMIT_NOFILE)[1]))  # a modest `ulimit -n`
+            if cwd_on_path:
+                # as with `python -c "from gwf.cli import main; main()"` / `python -m ...`: the invoking directory
+                # is the first entry of the module search path
+                sys.path.insert(0, "")
             signal.signal(signal.SIGALRM, signal.SIG_DFL)
             signal.alarm(0)
             sys.argv = ["gwf"] + list(args)
